@@ -1627,7 +1627,7 @@ theorem bz_mutual (W : Nat) (hW : 1 ≤ W) (hW4 : 4 ≤ W) : ∀ fuel : Nat,
       lhs.length - rhs.length < rhs.length → IsWords W lhs → IsWords W rhs →
       2 ^ (W * rhs.length) ≤ 2 * val W rhs →
       InPlaceOk W lhs rhs (bzSmallQuotient W (highestDword W rhs) fuel lhs rhs)) := by
-  have hts : thresholdSimple = 32 := rfl
+  have hts : 1 ≤ thresholdSimple := by decide
   intro fuel
   induction fuel with
   | zero =>
@@ -1637,7 +1637,6 @@ theorem bz_mutual (W : Nat) (hW : 1 ≤ W) (hW4 : 4 ≤ W) : ∀ fuel : Nat,
     constructor
     · -- ---------------------------------------------------------------- same_len
       intro lhs rhs hf hn hlen hl hr hnorm
-      rw [hts] at hn
       have hnLo : 1 ≤ rhs.length / 2 := by omega
       have hnLo' : rhs.length / 2 < rhs.length := by omega
       -- high part
@@ -1685,8 +1684,7 @@ theorem bz_mutual (W : Nat) (hW : 1 ≤ W) (hW4 : 4 ≤ W) : ∀ fuel : Nat,
         have hc1 : rhs.length ≥ 2 ∧ lhs.length ≥ rhs.length := ⟨hn, hm⟩
         simp only [bzSmallQuotient, hc1, not_true_eq_false, if_false, hmn, hsm, if_true]
         exact this
-      · rw [hts] at hsm
-        -- notation: n = rhs.length, m = lhs.length - n, k = n - m
+      · -- notation: n = rhs.length, m = lhs.length - n, k = n - m
         have hk1 : rhs.length - (lhs.length - rhs.length) + (lhs.length - rhs.length) = rhs.length := by omega
         generalize hmdef : lhs.length - rhs.length = m at *
         generalize hkdef : rhs.length - m = k at *
@@ -1704,7 +1702,7 @@ theorem bz_mutual (W : Nat) (hW : 1 ≤ W) (hW4 : 4 ≤ W) : ∀ fuel : Nat,
         -- recursive 2m / m division of the top words
         have hld : (lhs.drop k).length = 2 * m := by rw [List.length_drop]; omega
         obtain ⟨top', qo, e1, a1, a2, a3, a4, a5⟩ := ihS (lhs.drop k) (rhs.drop k)
-          (by rw [hrd]; omega) (by rw [hrd, hts]; omega) (by rw [hld, hrd]) (hl.drop _) (hr.drop _)
+          (by rw [hrd]; omega) (by rw [hrd]; omega) (by rw [hld, hrd]) (hl.drop _) (hr.drop _)
           (by rw [hrd]; exact hnd)
         rw [hdt] at e1
         rw [hld] at a1
@@ -1850,7 +1848,7 @@ theorem bz_mutual (W : Nat) (hW : 1 ≤ W) (hW4 : 4 ≤ W) : ∀ fuel : Nat,
         obtain ⟨g1, g2⟩ := hqo3
         -- assemble
         have hc1 : rhs.length ≥ 2 ∧ lhs.length ≥ rhs.length := ⟨hn, hm⟩
-        have hnsm : ¬ m ≤ thresholdSimple := by rw [hts]; exact hsm
+        have hnsm : ¬ m ≤ thresholdSimple := hsm
         have hok : ¬ ((0 : Int) ≠ 0 ∨ ¬ (0 ≤ qo3 ∧ qo3 ≤ 1)) := by simp [g1, g2]
         have hcNat : ∃ c : Nat, (if qo3 ≠ 0 then 1 else 0) = c ∧ (c : Int) = qo3 ∧ c ≤ 1 := by
           by_cases h0 : qo3 = 0
@@ -1877,8 +1875,7 @@ theorem bzOuter_spec (W : Nat) (hW : 1 ≤ W) (hW4 : 4 ≤ W) (rhs : List Nat) (
     ∀ (t : Nat) (lhs : List Nat), lhs.length / rhs.length = t + 1 → IsWords W lhs →
       (lhs.length = rhs.length → val W lhs < val W rhs) →
       InPlaceOk W lhs rhs (bzOuter W (highestDword W rhs) rhs (2 * rhs.length + 1) t lhs) := by
-  have hts : thresholdSimple = 32 := rfl
-  rw [hts] at hn
+  have hts : 1 ≤ thresholdSimple := by decide
   have hnpos : 0 < rhs.length := by omega
   obtain ⟨bzS, bzQ⟩ := bz_mutual W hW hW4 (2 * rhs.length + 1)
   intro t
@@ -1907,7 +1904,7 @@ theorem bzOuter_spec (W : Nat) (hW : 1 ≤ W) (hW4 : 4 ≤ W) (rhs : List Nat) (
     have hwl : (lhs.drop (lhs.length - 2 * rhs.length)).length = 2 * rhs.length := by
       rw [List.length_drop]; omega
     obtain ⟨win', o, e1, a1, a2, a3, a4, a5⟩ := bzS (lhs.drop (lhs.length - 2 * rhs.length)) rhs
-      (by omega) (by rw [hts]; omega) hwl (hl.drop _) hr hnorm
+      (by omega) (by omega) hwl (hl.drop _) hr hnorm
     rw [hwl] at a1 a5
     have hkl : (lhs.take (lhs.length - 2 * rhs.length)).length = lhs.length - 2 * rhs.length := by
       rw [List.length_take]; omega
@@ -1961,7 +1958,7 @@ theorem bzDivRemInPlace_spec (W : Nat) (hW : 1 ≤ W) (hW4 : 4 ≤ W) (lhs rhs :
     (hn : thresholdSimple < rhs.length) (hm : rhs.length + thresholdSimple < lhs.length)
     (hl : IsWords W lhs) (hr : IsWords W rhs) (hnorm : 2 ^ (W * rhs.length) ≤ 2 * val W rhs) :
     InPlaceOk W lhs rhs (bzDivRemInPlace W lhs rhs (highestDword W rhs)) := by
-  have hts : thresholdSimple = 32 := rfl
+  have hts : 1 ≤ thresholdSimple := by decide
   have hnpos : 0 < rhs.length := by omega
   have hdpos : 0 < lhs.length / rhs.length := Nat.div_pos (by omega) hnpos
   have hcond : lhs.length > rhs.length + thresholdSimple ∧ rhs.length > thresholdSimple := ⟨hm, hn⟩
@@ -1983,7 +1980,7 @@ theorem divRemInPlace_spec (W : Nat) (hW : 1 ≤ W) (hW4 : 4 ≤ W) (lhs rhs : L
     obtain ⟨out, c, e, o1, o2, _, o3, o4⟩ := simpleDivRemInPlace_spec W hW lhs rhs hn hm hl hr hnorm
     exact ⟨out, c, e, o1, o2, o3, o4⟩
   · rw [if_neg hs]
-    have hts : thresholdSimple = 32 := rfl
+    have hts : 1 ≤ thresholdSimple := by decide
     obtain ⟨out, c, e, o1, o2, _, o3, o4⟩ := bzDivRemInPlace_spec W hW hW4 lhs rhs (by omega) (by omega) hl hr hnorm
     exact ⟨out, c, e, o1, o2, o3, o4⟩
 
